@@ -42,7 +42,7 @@ import (
 	"verif/ref/h2wire"
 )
 
-const binaryPatience = 45 * time.Second
+const binaryPatience = 30 * time.Second
 
 // ---- child ---------------------------------------------------------------------------------------------------------
 
@@ -426,9 +426,15 @@ func binarySignals(t *testing.T, rep *ev.Report, shard, of int) {
 	defer ln.Close()
 	go http.Serve(ln, http.HandlerFunc(func(w http.ResponseWriter, r *http.Request) { io.WriteString(w, "ok "+r.URL.Path) }))
 	backendURL := "http://" + ln.Addr().String()
+	stopped := false
 	for i, c := range binCases() {
 		if i%of != shard {
 			continue
+		}
+		if stopped {
+			// one finding per shard: a history that never returns costs its full patience in every run
+			rep.NotExhaustive("signal histories: this shard stopped after its first finding")
+			break
 		}
 		var res binResult
 		for try := 0; try < 5; try++ {
@@ -451,18 +457,22 @@ func binarySignals(t *testing.T, rep *ev.Report, shard, of int) {
 			// A failing history is run again before it is believed. These are real processes under the kernel's
 			// scheduler, so how a failure shows (which of the observations trips first) may differ between runs, and
 			// a failure that depends on where a signal lands relative to the child's own goroutines need not show in
-			// every run; what must recur at least once in four further runs is that the history fails.
-			same := 0
-			for k := 0; k < 4; k++ {
+			// every run; what must recur at least once in the further runs is that the history fails.
+			same, reruns := 0, 4
+			if kind == "no-return" || kind == "no-shutdown-after-signal" {
+				reruns = 2 // each of these waits out the full patience
+			}
+			stopped = true
+			for k := 0; k < reruns; k++ {
 				if r2 := runBinary(c, dir, cert.Certificate[0], backendURL); len(r2.violations) > 0 {
 					same++
 				}
 			}
 			if same < 1 {
-				rep.HarnessError("%v: %s seen once but only %d/4 times on re-execution: %s", c, kind, same, text)
+				rep.HarnessError("%v: %s seen once but only %d/%d times on re-execution: %s", c, kind, same, reruns, text)
 				break
 			}
-			rep.Violate(map[string]any{"kind": "binary-" + kind, "phase": c.phase}, map[string]any{"binary_case": c.String()}, "%s (failed in %d of 5 runs)", text, same+1)
+			rep.Violate(map[string]any{"kind": "binary-" + kind, "phase": c.phase}, map[string]any{"binary_case": c.String()}, "%s (failed in %d of %d runs)", text, same+1, reruns+1)
 			break // one report per history
 		}
 	}
